@@ -70,6 +70,7 @@ def run(ctx: Ctx) -> None:
     restore_identity(ctx, py, rs)
     save_is_pure_and_restore_is_unconditional(ctx, py)
     keyboard_restore_identity(ctx, py)
+    restore_once(ctx, py)
 
 
 # ---------------------------------------------------------------------------
@@ -695,6 +696,9 @@ def save_completeness(ctx: Ctx, py: PyProgram) -> None:
 _CASTS = {"bool", "int", "list", "dict", "str", "tuple", "bytes", "float"}
 
 
+_CASTS = {"int", "bool", "float", "str", "getattr", "list", "dict", "tuple", "bytes", "hasattr", "isinstance"}
+
+
 def _state_fields(e: ast.AST, defs: dict, depth: int = 0) -> tuple[set[str], list[str]]:
     """(state fields the value is read from, operators that combine/alter values) with locals resolved."""
     fields: set[str] = set()
@@ -702,6 +706,8 @@ def _state_fields(e: ast.AST, defs: dict, depth: int = 0) -> tuple[set[str], lis
     for n in ast.walk(e):
         if isinstance(n, (ast.BoolOp, ast.BinOp, ast.Compare, ast.UnaryOp)):
             ops.append(type(n).__name__ + ":" + unparse(n)[:60])
+        if isinstance(n, ast.Call) and isinstance(n.func, ast.Name) and n.func.id not in _CASTS and n.func.id not in defs:
+            ops.append("Call:" + unparse(n)[:60])       # min/max/abs/round/...: a clamp or filter, not the field
         if isinstance(n, ast.Call) and isinstance(n.func, ast.Name) and n.func.id == "getattr" and len(n.args) >= 2 and attr_chain(n.args[0]) == "self" and isinstance(n.args[1], ast.Constant):
             fields.add("self." + str(n.args[1].value))
         if isinstance(n, ast.Attribute):
@@ -1067,3 +1073,55 @@ def keyboard_restore_identity(ctx: Ctx, py: PyProgram) -> None:
                       f"load_state restores {bad[0]} = {bad[2]!r} from a snapshot that holds {bad[1]!r}: the restored keyboard continues differently from the one that was saved "
                       "(e.g. the first auto-repeat of a held key comes up to repeat_delay - repeat_interval scan ticks early)", f"{KM_PY}:{km.methods['load_state'].lineno}")
     ctx.instance("C16.6/keyboard-restore-identity", "per-key counters x flag combinations and ring indices through KeyboardMatrix.load_state (interpreted): restored == saved", n, 80)
+
+
+# fields load_snapshot may assign again after restoring them, with the reason (confirmed by reading)
+_RESTORE_REASSIGN_OK = {
+    "_timer_mti_period": "llama-backend timer rescale: host configuration (self._timer_scale), applied on purpose whatever the snapshot says",
+    "_timer_sti_period": "llama-backend timer rescale: host configuration (self._timer_scale), applied on purpose whatever the snapshot says",
+}
+
+
+def restore_once(ctx: Ctx, py: PyProgram) -> None:
+    """A field that load_snapshot has set from the saved data is not assigned again later in load_snapshot: a second assignment
+    (under whatever condition) replaces what was saved by something computed at load time, so the restored machine is not the saved
+    one whenever that condition holds."""
+    fn = py.func(EMU, "PCE500Emulator.load_snapshot")
+    params = {a.arg for a in fn.args.args + fn.args.kwonlyargs if a.arg != "self"}
+    defs = py_defs(fn)
+
+    def from_saved(e: Any, depth: int = 0) -> bool:
+        if isinstance(e, tuple):
+            return any(from_saved(y, depth) for y in e if isinstance(y, (ast.AST, tuple)))
+        if not isinstance(e, ast.AST):
+            return False
+        for x in ast.walk(e):
+            if isinstance(x, ast.Call) and isinstance(x.func, ast.Attribute) and x.func.attr in ("loads", "load", "read"):
+                return True         # json.loads(..) / zf.read(..): the saved bundle itself
+            if isinstance(x, ast.Name):
+                if x.id in params:
+                    return True
+                if x.id in defs and depth < 6 and any(from_saved(v, depth + 1) for v in defs[x.id]):
+                    return True
+        return False
+    first: dict[str, ast.AST] = {}
+    n = 0
+    stmts = sorted([s_ for s_ in ast.walk(fn) if isinstance(s_, (ast.Assign, ast.AugAssign, ast.AnnAssign))], key=lambda s_: (s_.lineno, s_.col_offset))
+    for st in stmts:
+        ts = st.targets if isinstance(st, ast.Assign) else [st.target]
+        for t in ts:
+            for e in (t.elts if isinstance(t, (ast.Tuple, ast.List)) else [t]):
+                if not (isinstance(e, ast.Attribute) and isinstance(e.value, ast.Name) and e.value.id == "self"):
+                    continue
+                val = getattr(st, "value", None)
+                if e.attr not in first:
+                    if val is not None and from_saved(val):
+                        first[e.attr] = st
+                        n += 1
+                    continue
+                if e.attr in _RESTORE_REASSIGN_OK:
+                    continue
+                ctx.violation("C16.6/restore-once", key_of(EMU, "PCE500Emulator.load_snapshot", f"self.{e.attr} assigned again after the restore"),
+                              f"load_snapshot restores self.{e.attr} from the saved data (line {first[e.attr].lineno}) and assigns it again at line {st.lineno} (`{unparse(st)[:100]}`): "
+                              "whenever that statement runs, the restored machine no longer has the saved value", f"{EMU}:{st.lineno}")
+    ctx.instance("C16.6/restore-once", "fields load_snapshot sets from the saved data; none may be assigned again in the same function (two reasoned exceptions)", n, 15)
